@@ -124,6 +124,21 @@ func trackedDir(relFile string) bool {
 	return false
 }
 
+// gvarID numbers the package-level variables written outside init() (package path + name).
+var gvarIDs = map[string]int{}
+
+func gvarID(v *types.Var) int {
+	k := v.Name()
+	if v.Pkg() != nil {
+		k = v.Pkg().Path() + "." + v.Name()
+	}
+	if id, ok := gvarIDs[k]; ok {
+		return id
+	}
+	gvarIDs[k] = len(gvarIDs) + 1
+	return gvarIDs[k]
+}
+
 func isMutex(t types.Type) bool {
 	if p, ok := t.(*types.Pointer); ok {
 		t = p.Elem()
@@ -409,7 +424,7 @@ func main() {
 											siteID++
 											nGW++
 											siteTable = append(siteTable, fmt.Sprintf("%d\tgwrite\t%s\t%s\t%d\t%s", siteID, rel(fn), curFunc(), tf.Line(n.Pos()), id.Name))
-											edits = append(edits, edit{pos: off(n.End()), end: off(n.End()), text: fmt.Sprintf("; simrt.W(%d)", siteID), prio: 2})
+											edits = append(edits, edit{pos: off(n.End()), end: off(n.End()), text: fmt.Sprintf("; simrt.W2(%d, %d)", siteID, gvarID(v)), prio: 2})
 										}
 									}
 								}
@@ -437,7 +452,7 @@ func main() {
 								siteID++
 								nGW++
 								siteTable = append(siteTable, fmt.Sprintf("%d\tgwrite\t%s\t%s\t%d\t%s", siteID, rel(fn), curFunc(), tf.Line(n.Pos()), id.Name))
-								edits = append(edits, edit{pos: off(n.End()), end: off(n.End()), text: fmt.Sprintf("; simrt.W(%d)", siteID), prio: 2})
+								edits = append(edits, edit{pos: off(n.End()), end: off(n.End()), text: fmt.Sprintf("; simrt.W2(%d, %d)", siteID, gvarID(v)), prio: 2})
 							}
 						}
 					}
@@ -459,7 +474,7 @@ func main() {
 								siteID++
 								nGW++
 								siteTable = append(siteTable, fmt.Sprintf("%d\tgwrite\t%s\t%s\t%d\t%s", siteID, rel(fn), curFunc(), tf.Line(n.Pos()), id.Name))
-								edits = append(edits, edit{pos: off(n.End()), end: off(n.End()), text: fmt.Sprintf("; simrt.W(%d)", siteID), prio: 2})
+								edits = append(edits, edit{pos: off(n.End()), end: off(n.End()), text: fmt.Sprintf("; simrt.W2(%d, %d)", siteID, gvarID(v)), prio: 2})
 							}
 							break
 						}
